@@ -32,6 +32,23 @@ def i18nFmt (langs : List (String × LangMap)) (defaultLang : String) (ctxLang :
   | some m => defaultFmt m code dtype params
   | none => defaultFmt ((lookupD langs defaultLang).getD []) code dtype params
 
+/-- one call of `i18n.SetLanguagesErrsMap(langs, dflt, WithLangKey(key)?)` -/
+structure Install where
+  langs : List (String × LangMap)
+  dflt : String
+  key : Option String := none
+
+/-- the context key an installation reads the language from (`i18n.LangKey` unless `WithLangKey`) -/
+def Install.langKey (i : Install) : String := i.key.getD "lang"
+
+/-- the global formatter after a HISTORY of installations, for an execution whose context holds `ctx`
+    (`base`: the formatter before any installation). Only the last installation counts. -/
+def installedFmt (base : String → String → List (String × String) → String) (hist : List Install)
+    (ctx : List (String × String)) : String → String → List (String × String) → String :=
+  match hist.getLast? with
+  | none => base
+  | some i => i18nFmt i.langs i.dflt (lookupD ctx i.langKey)
+
 /-- most specific first: the test's own message, else the execution formatter, else the global one -/
 def pickMessage (testMsg : String) (execFmt : Option (String → String → List (String × String) → String))
     (globalFmt : String → String → List (String × String) → String)
